@@ -436,7 +436,7 @@ def srctext_rule(repo, res, rule="SRCTEXT"):
         res.undecided(rule, f"{rule}:main::aot:parse", f"{len(ps)} Grammar::parse call sites", fn.loc())
         return
     c = ps[0]
-    ALLOWED = {"read_to_string", "context", "with_context", "to_owned", "clone", "default", "new", "as_str", "as_ref", "borrow", "to_string", "into", "unwrap", "expect", "map_err", "ok_or", "with_capacity"}
+    ALLOWED = {"read_to_string", "context", "with_context", "to_owned", "clone", "default", "new", "as_str", "as_ref", "as_deref", "borrow", "to_string", "into", "unwrap", "expect", "map_err", "ok_or", "ok_or_else", "with_capacity", "from_utf8", "read_to_end", "lock", "unwrap_or", "unwrap_or_else", "map"}
     calls = A.reach_calls(c["args"][0], envs.get(id(c)), fn=fn, envs=envs)
     # a helper that reads the file counts through its own body
     for h in repo.fns_in("main"):
